@@ -308,4 +308,8 @@ PROPS['C17']['explanation'] = PROPS['C17']['explanation'].replace('Partial, name
     'Proof: fits read left to right over the six templates (fits_shape), the stored routes are the expansions of the table slice of the method, the table is within the specification. Partial, named: that the executable oracle '
     '`readings` (used to judge the REAL example on generated URLs) decomposes URLs exactly as url_shape does is not a theorem (two independent writings of the same specification; ')
 
+PROPS['C17']['explanation'] = PROPS['C17']['explanation'].replace('Partial, named: that the executable oracle `readings` (used to judge the REAL example on generated URLs) decomposes URLs exactly as url_shape does is not a theorem (two independent writings of the same specification; ',
+    'C17_oracle_reads_urls_as_specified (Proofs/OciReadP.v, closed): the executable URL decomposition `readings` with which check_oci judges the REAL example finds, for every valid UTF-8 URL, exactly the declarative shapes url_shape '
+    '(split/join at "/", the optional trailing "/", keyword tails, name grammar => ASCII => valid UTF-8, tokens cut at ASCII delimiters stay valid) - so the oracle and the theorem about the model routers speak of the same specification. Partial, named: (')
+
 NOT_APPLICABLE = {}
